@@ -100,6 +100,15 @@ CHECKS['C21'] = dict(
          '(fix: -0.0 hashing), one is test-pinned and listed (Interval).',
     design='§4 C21')
 
+CHECKS['C16'] = dict(
+    technique='sibling-arm agreement (T8): operation class of the InMemory vs DiskBacked arm of every match on IndexData, from the BTreeMap / BTreeIndex calls each arm makes',
+    text='Decides for every function that dispatches on the index backend that both arms perform the same operation class (add one row id, '
+         'remove one row id, remove a key, rebuild, point lookup, range lookup); an unknown index call fails closed. This is the '
+         'necessary condition for backend independence that holds for all workloads; it found the delete(key) vs remove-one divergence, '
+         'now repaired.',
+    note='Not decided: the B+tree\'s own behaviour (C17), spill thresholds, swallowed I/O errors in the disk arm.',
+    design='§4 C16')
+
 NOT_APPLICABLE = {
     'C01': 'Equality of result multisets with a reference engine is a value-level semantic equivalence over all queries and data; no structural necessary condition beyond those claimed under C06/C21/C24 exists and a static rule cannot stand in for an oracle.',
     'C03': 'Columnar-vs-row agreement is determined by computed values (empty input, NULL handling, sums); a rejected shape falls back safely, so no table-agreement obligation exists whose breach necessarily changes results.',
